@@ -21,6 +21,14 @@ checks = {
  "C13": ("model_checking", "bounded-exhaustive differential exploration: ASCII vs UTF-8 entry points on ASCII haystacks",
          "Every enumerated pattern (including ones mentioning non-ASCII characters and their ASCII fold partners) x every ASCII haystack x every start: find_from_ascii must equal find_from, for both executors.", "4 C13"),
 }
+checks.update({
+ "C16": ("model_checking", "bounded-exhaustive enumeration of patterns with named / duplicate-named groups; accessor identities checked on every match",
+         "Every AST of the named-group profile (named, unnamed, duplicate-named groups in alternatives, lookbehind, quantifiers) plus the look and core profiles x haystacks x every match of find_iter: captures equal the reference matcher's (left-paren order, last participation), and group/groups/named_group/named_groups agree with captures and with each other, names in source order, participating duplicate reported.", "4 C16"),
+ "C17": ("model_checking", "exhaustive enumeration of replacement templates x a menu of match sequences against a splice-and-expand model",
+         "All templates over a 10-character alphabet up to length 5 (6 thorough) x 22 (pattern, haystack) pairs covering no/one/adjacent/empty matches, multibyte boundaries, non-participating, named and duplicate-named groups: replace and replace_all must equal the ten-line model applied to find_iter's sequence; closure variants with identity and constant closures.", "4 C17"),
+ "C18": ("model_checking", "exhaustive enumeration of strings s, flag sets and derived haystacks against substring search",
+         "All strings over a 29-character alphabet (every syntax character, class punctuators, case pairs, multibyte, newline) up to length 3 (4 thorough) x all 24 flag sets x haystacks derived from s: escape(s) compiles, only inserts backslashes, and its matches are exactly the (case-insensitive under i) occurrences of s.", "4 C18"),
+})
 not_applicable = {
 }
 PENDING = "check not built yet in this round (planned in DESIGN.md section 10); nothing is claimed for it until it exists"
